@@ -167,6 +167,41 @@ def prec_filter(table, g):
     return f
 
 
+def shape_filter(table):
+    """a filter that encodes the operator table by looking at the
+    *sub-results* of the reduction it is asked about (GLR: the operands are
+    forest links; every alternative they hold is inspected)"""
+    def name2op(sym):
+        for o, nme in NAMES.items():
+            if nme == sym.name:
+                return o
+        return None
+
+    def top_ops(link):
+        out = []
+        for alt in getattr(link, "possibilities", []):
+            if alt.is_nonterm() and len(alt.production.rhs) == 3:
+                out.append(name2op(alt.production.rhs[1]))
+        return out
+
+    def f(context, from_state, to_state, action, production, subresults):
+        if action is None:
+            return None
+        if action is not REDUCE or len(production.rhs) != 3:
+            return True
+        p, a = table[name2op(production.rhs[1])]
+        for c in top_ops(subresults[0]):      # left operand
+            pc, _ = table[c]
+            if pc < p or (pc == p and a == "right"):
+                return False
+        for c in top_ops(subresults[2]):      # right operand
+            pc, _ = table[c]
+            if pc < p or (pc == p and a == "left"):
+                return False
+        return True
+    return f
+
+
 def run_unit(u):
     k = u["k"]
     pmarks, tmarks = u["marks"][:k], u["marks"][k:2 * k]
@@ -311,6 +346,38 @@ def run_unit(u):
                                 {"got": str(got), "want": str(want),
                                  "table": str(table)},
                                 case(kind, s, f"prec:{table}"))
+    # ---- sub-result (tree shape) based precedence filter, GLR ------------
+    if all(pmarks) and not any(tmarks) and not nmark:
+        for wo in weak_orderings(list(ops)):
+            for assocs in itertools.product(("left", "right"), repeat=len(wo)):
+                table = {}
+                for li, (lvl, a) in enumerate(zip(wo, assocs)):
+                    for o_ in lvl:
+                        table[o_] = (li + 1, a)
+                gg = grammar_from_string(text)
+                p = build("glr", gg, mon, tag=("shape", str(table)), ws="",
+                          dynamic_filter=shape_filter(table))
+                for s in exprs:
+                    want = parse_expr(list(s), table)
+                    o = parse(p, s, mon)
+                    st["evaluations"] += 1
+                    st["nontrivial"] += 1
+                    if o.kind == "ok":
+                        n = ForestView(o.value.result).count()
+                        got = p.call_actions(o.value[0]) if n == 1 else \
+                            f"{n} trees"
+                    else:
+                        got = o.brief()
+                    if got != want:
+                        judge.deviation(
+                            "FILTER", cfg + "/shape/glr", gk, s,
+                            "a filter deciding from the sub-results of each "
+                            "reduction does not yield exactly the tree it "
+                            "admits (a rejected reduction was taken, or an "
+                            "accepted one dropped)",
+                            {"got": str(got), "want": str(want),
+                             "table": str(table)},
+                            case("glr", s, f"shape:{table}"))
     r = judge.result()
     r.update(st)
     r.update(states=len(mon.states), transitions=mon.transitions,
